@@ -47,8 +47,8 @@ func mirrorDraws(seed int64, retries uint64) (bool, []uint64) {
 	r := rand.New(rand.NewSource(seed))
 	coin := r.Float32() < 0.5
 	n := retries
-	if n > 600 {
-		n = 600
+	if n > 2000 {
+		n = 2000
 	}
 	draws := make([]uint64, n)
 	for i := range draws {
@@ -173,6 +173,9 @@ func genCuckoo(mode string) func(g *Gen, tier string) *Case {
 			c.size = uint64(g.Pick(1, 2, 3, 4, 8))
 			c.retries = uint64(g.Pick(1, 2, 3, 7, 20, 100, 300))
 		}
+		if mode == "C14" && g.Rare(0.05, 30, 11) {
+			return genCuckooLarge(g)
+		}
 		withBad := g.Chance(0.1)
 		if withBad && g.Chance(0.5) {
 			c.fpl = uint64(g.Pick(0, 21, 25))
@@ -243,6 +246,38 @@ func genCuckoo(mode string) func(g *Gen, tier string) *Case {
 		}
 		return &Case{Ops: ops}
 	}
+}
+
+// genCuckooLarge: configurations far from the defaults of the test-suite — an eviction walk much
+// longer than the default 500 retries on a filter with a few hundred slots (so that some slots are
+// touched for the first time late in the walk), or buckets with several hundred slots (slot numbers
+// beyond one byte). The filter is filled with distinct elements until inserts fail; the state is
+// observed around every insert of the saturated phase.
+func genCuckooLarge(g *Gen) *Case {
+	var c ckCfg
+	if g.Chance(0.5) {
+		c = ckCfg{size: 64, bsize: 4, fpl: 6, retries: uint64(g.Pick(520, 700, 900, 1300))}
+	} else {
+		c = ckCfg{size: uint64(g.Pick(1, 2, 2)), bsize: uint64(g.Pick(260, 300, 300)), fpl: 6, retries: uint64(g.Pick(5, 20, 50))}
+	}
+	ops := []Tok{TL(TNi(ckNew), TNi(0), TNu(c.size), TNu(c.bsize), TNu(c.fpl), TNu(c.retries))}
+	capacity := int(c.size * c.bsize)
+	pool := g.ckPool(capacity+10+g.Intn(8), false)
+	destr := g.Chance(0.15)
+	for j, x := range pool {
+		watch := j >= capacity*3/4
+		if watch {
+			ops = append(ops, TL(TNi(ckState), TNi(0)))
+		}
+		ops = append(ops, ckInsertOp(g, 0, x, destr))
+		if watch {
+			ops = append(ops, TL(TNi(ckState), TNi(0)), TL(TNi(ckLength), TNi(0)))
+		}
+	}
+	for _, y := range pool {
+		ops = append(ops, TL(TNi(ckLookup), TNi(0), TBs(y)))
+	}
+	return &Case{Ops: ops}
 }
 
 func genMurmur(g *Gen, tier string) *Case {
